@@ -52,7 +52,7 @@ def record_values(args):
     from skchange.anomaly_detectors import CAPA, CircularBinarySegmentation
     from skchange.anomaly_scores import L2Saving, Saving
     from skchange.change_detectors import PELT, MovingWindow, SeededBinarySegmentation
-    from skchange.costs import GaussianVarCost
+    from skchange.costs import GaussianCovCost, GaussianVarCost, L2Cost
 
     n, p = args
     out = []
@@ -65,6 +65,21 @@ def record_values(args):
         try:
             if n >= 2:
                 out.append({**base, "id": rid + "-pelt", "what": "pelt", "q": q(PELT(penalty_scale=sc, min_segment_length=1).fit(X).penalty_), "tol": tol})
+            # the defaults depend on the SHAPE of the data only, whatever scorer is plugged in (a cost with more
+            # parameters per variable does not change PELT's 2 p log n, nor the thresholds of the other detectors)
+            for tag, mk, ms in (("var", lambda: GaussianVarCost(), 2), ("cov", lambda: GaussianCovCost(), p + 1),
+                                ("l2fixed", lambda: L2Cost(param=0.5), 1)):
+                if n >= 2 * ms:
+                    out.append({**base, "id": rid + "-pelt-" + tag, "what": "pelt", "tol": tol,
+                                "q": q(PELT(cost=mk(), penalty_scale=sc, min_segment_length=ms).fit(X).penalty_)})
+                    if tag != "cov":
+                        out.append({**base, "id": rid + "-sbs-" + tag, "what": "seeded", "tol": tol,
+                                    "q": q(SeededBinarySegmentation(change_score=mk(), threshold_scale=sc, min_segment_length=ms,
+                                                                    max_interval_length=max(7, 2 * ms)).fit(X).threshold_)})
+                        out.append({**base, "id": rid + "-cbs-" + tag, "what": "circular", "tol": tol,
+                                    "q": q(CircularBinarySegmentation(anomaly_score=mk(), threshold_scale=sc, min_segment_length=ms,
+                                                                      max_interval_length=max(7, 2 * ms)).fit(X).threshold_)})
+            if n >= 2:
                 out.append({**base, "id": rid + "-sbs", "what": "seeded", "tol": tol,
                             "q": q(SeededBinarySegmentation(threshold_scale=sc, min_segment_length=1, max_interval_length=7).fit(X).threshold_)})
                 out.append({**base, "id": rid + "-cbs", "what": "circular", "tol": tol,
